@@ -196,6 +196,23 @@ func checkC12() int {
 	for _, pc := range cases {
 		items = append(items, item{pc.Text, "grammatical", pc})
 	}
+	// the same programs with comments (all the usual styles) put where white space is
+	comments := []string{"/* c */", "/** doc **/", "/***/", "/**/", "// line\n", "/* two\n   lines */", "/*\n * banner\n */", "/* prc[zz] : 1 = close self */", "// type Z = 1\n"}
+	for _, pc := range cases {
+		t := pc.Text
+		var b strings.Builder
+		for i := 0; i < len(t); i++ {
+			if (t[i] == ' ' || t[i] == '\n') && r.Intn(12) == 0 {
+				b.WriteByte(t[i])
+				b.WriteString(comments[r.Intn(len(comments))])
+				b.WriteByte(' ')
+				continue
+			}
+			b.WriteByte(t[i])
+		}
+		b.WriteString(comments[r.Intn(len(comments))])
+		items = append(items, item{b.String(), "grammatical", pc})
+	}
 	envs := genEnvs(c, c.pick(100, 3000), 12, 0)
 	for _, e := range envs {
 		items = append(items, item{e.text, "grammatical-defs", nil})
